@@ -50,6 +50,7 @@ typedef struct
 
 } MantisCTRVec128Ctx_t;
 
+static void mantis_ctr_vec128_reset_keystream(MantisCTRVec128Ctx_t *ctx);
 static int mantis_ctr_vec128_set_counter
     (MantisCTR_t *ctr, const void *counter, unsigned size);
 
@@ -97,7 +98,7 @@ static int mantis_ctr_vec128_set_key
         return 0;
 
     /* Reset the keystream */
-    ctx->offset = MANTIS_CTR_BLOCK_SIZE;
+    mantis_ctr_vec128_reset_keystream(ctx);
     return 1;
 }
 
@@ -116,7 +117,7 @@ static int mantis_ctr_vec128_set_tweak
         return 0;
 
     /* Reset the keystream */
-    ctx->offset = MANTIS_CTR_BLOCK_SIZE;
+    mantis_ctr_vec128_reset_keystream(ctx);
     return 1;
 }
 
@@ -139,6 +140,42 @@ STATIC_INLINE void mantis_ctr_increment
         ptr[0] = (uint8_t)inc;
         inc >>= 8;
     }
+}
+
+/* Decrement a specific column in an array of row vectors */
+STATIC_INLINE void mantis_ctr_decrement
+    (SkinnyVector8x16_t *counter, unsigned column, unsigned dec)
+{
+    uint8_t *ctr = ((uint8_t *)counter) + column * 2;
+    uint8_t *ptr;
+    unsigned index;
+    for (index = 8; index > 0; ) {
+        --index;
+        ptr = ctr + (index & 0x06) * 8;
+#if SKINNY_LITTLE_ENDIAN
+        ptr += index & 0x01;
+#else
+        ptr += 1 - (index & 0x01);
+#endif
+        dec = ptr[0] - dec;
+        ptr[0] = (uint8_t)dec;
+        dec = (dec >> 8) & 1;
+    }
+}
+
+/* Discards the buffered keystream after a key or tweak change.  The change
+   takes effect at the next block boundary, exactly as in the generic back
+   end, so the lane counters are rewound over the blocks of the current
+   batch that were generated but never used */
+static void mantis_ctr_vec128_reset_keystream(MantisCTRVec128Ctx_t *ctx)
+{
+    if (ctx->offset < MANTIS_CTR_BLOCK_SIZE) {
+        unsigned unused = (MANTIS_CTR_BLOCK_SIZE - ctx->offset) / MANTIS_BLOCK_SIZE;
+        unsigned column;
+        for (column = 0; column < 8; ++column)
+            mantis_ctr_decrement(ctx->counter, column, unused);
+    }
+    ctx->offset = MANTIS_CTR_BLOCK_SIZE;
 }
 
 static int mantis_ctr_vec128_set_counter
